@@ -59,6 +59,7 @@ macro_rules! arm_harness {
         #[kani::stub(std::hash::RandomState::new, $crate::stubs::fixed_keys)]
         #[kani::stub(std::vec::Vec::reserve, $crate::stubs::reserve_stub)]
         #[kani::stub(chia_consensus::conditions::parse_args, $stub)]
+        #[kani::stub($crate::arm::is_native, $crate::arm::is_native_no)]
         fn $name() $body
     };
 }
@@ -90,6 +91,7 @@ macro_rules! sig_harness {
         #[kani::stub(std::hash::RandomState::new, $crate::stubs::fixed_keys)]
         #[kani::stub(std::vec::Vec::reserve, $crate::stubs::reserve_stub)]
         #[kani::stub(chia_consensus::conditions::parse_args, $stub)]
+        #[kani::stub($crate::arm::is_native, $crate::arm::is_native_no)]
         #[kani::stub(chia_consensus::conditions::PublicKey::from_bytes, $crate::stubs::pk_from_bytes_stub)]
         #[kani::stub(chia_consensus::conditions::PublicKey::is_inf, $crate::stubs::pk_is_inf_stub)]
         #[kani::stub(chia_consensus::conditions::PublicKey::to_bytes, $crate::stubs::pk_to_bytes_stub)]
